@@ -1,0 +1,15 @@
+//go:build verif
+
+package bitmap1024
+
+import (
+	"github.com/pinealctx/neptune/bitmap1024/internal"
+)
+
+// VerifSetSparseMagic (build tag verif only) sets the popcount threshold that selects the scan
+// (popcount > n) or the find-first-set (popcount <= n) traversal of a 64-bit word.  The setter
+// lives in an internal package; the verification harness uses this to run every bitmap through
+// both traversal branches.  The default is 9.
+func VerifSetSparseMagic(n int32) {
+	internal.SetSparseMagic(n)
+}
